@@ -51,6 +51,17 @@ func check(t run.TB, c Case) outcome {
 		run.Fail(t, chk, c, "panic: add=%v check=%v validate=%v", add, chkRes, val)
 	}
 	if !add.OK || !chkRes.OK {
+		r := chkRes
+		if !add.OK {
+			r = add
+		}
+		switch r.Code {
+		case 301, 302, 303, 304, 1302, 1303, 1304:
+			// the generator writes syntactically valid texts, adds every type it names, makes no
+			// required cycles and uses string types (or references to them) for key shortcuts: a
+			// rejection for one of these reasons is a wrong verdict about the graph, not a discard
+			run.Fail(t, chk, c, "Check rejects a generated type graph for a reason the generator excludes by construction: %v", r)
+		}
 		// the graph is outside the fragment Check accepts: discarded by the caller
 		return outcome{}
 	}
@@ -96,6 +107,7 @@ func TestComposition(t *testing.T) {
 			if !add.OK {
 				r = add
 			}
+			check(t, Case{Spec: sp, Graph: gc.G, Doc: "null"}) // fails when the reason is one the generator excludes
 			run.Note("graph rejected by Check (discarded): code %d %s", r.Code, r.Msg)
 			run.Eval(chk, false)
 			return
